@@ -1195,9 +1195,11 @@ package flags
 //@   props C16 C04
 //@   requires g != nil
 //@   loop 1 invariant unfold(nShow(g.options, idx_1 + 1)) && unfold(nShow(g.options, 0)) && nShow(g.options, idx_1) == 0
+//@   loop 1 invariant forall(i, 0, idx_1, !showable(g.options[i]))
 //@   ensures[C16] r ==> !g.Hidden
 //@   ensures[C16] r ==> exists(i, 0, len(g.options), showable(g.options[i]))
 //@   ensures[C16] !r ==> grpRows(g) == 0
+//@   ensures[C17] !r && !g.Hidden ==> forall(i, 0, len(g.options), !showable(g.options[i]))
 //@   assigns nothing
 
 //@ func quoteV(s []string) (r []string)
@@ -1313,14 +1315,22 @@ package flags
 // short name / a value name occurs, and the width covers the option's long
 // name, value name and choices, counted in characters, plus the indentation.
 //@ pure func choicesText(o *Option) string = ite(len(o.Choices) != 0, "[" + strings.Join(o.Choices, "|") + "]", "")
-//@ pure func optWidth(o *Option) int = utf8.RuneCountInString(longNameWithNS(o) + o.ValueName + choicesText(o))
+// optWidth(o): characters of o's long name, value name and choices (opaque in
+// quantified invariants - string terms there stall the solvers - and unfolded
+// by use(optWidth_def, o); reads only fields that never change after setup).
+//@ assumed func optWidth(o *Option) (n int)
+//@   pure
+//@ axiom manual optWidth_def: forall o *Option :: optWidth(o) == utf8.RuneCountInString(longNameWithNS(o) + o.ValueName + choicesText(o))
+//@ assumed func argWidth(a *Arg) (n int)
+//@   pure
+//@ axiom manual argWidth_def: forall a *Arg :: argWidth(a) == utf8.RuneCountInString(a.Name)
 //@ pure func alignOK(maxLongLen int, hasShort bool, hasValueName bool, indent bool, o *Option) bool = (o.ShortName != 0 ==> hasShort) && (len(o.ValueName) > 0 ==> hasValueName) && optWidth(o) + ite(indent, 4, 0) <= maxLongLen
 //@ func (p *Parser) writeHelpOption(writer *bufio.Writer, option *Option, info alignmentInfo)
 //@   props C16 C17 C04
 //@   traced
 //@   requires option != nil && use(wf_option, option)
 //@   requires[C17] !option.Hidden ==> alignOK(info.maxLongLen, info.hasShort, info.hasValueName, info.indent, option)
-//@   requires use(rc_super, longNameWithNS(option), option.ValueName) && use(rc_ascii, longNameWithNS(option), option.ValueName) && use(rc_ascii, longNameWithNS(option) + option.ValueName, choicesText(option))
+//@   requires use(optWidth_def, option) && use(rc_super, longNameWithNS(option), option.ValueName) && use(rc_ascii, longNameWithNS(option), option.ValueName) && use(rc_ascii, longNameWithNS(option) + option.ValueName, choicesText(option))
 //@   ensures[C16] option.Hidden ==> ncalls(bufio.Writer.WriteString) == old(ncalls(bufio.Writer.WriteString)) && ncalls(bytes.Buffer.WriteTo) == old(ncalls(bytes.Buffer.WriteTo))
 //@   ensures[C16] !option.Hidden ==> ncalls(bytes.Buffer.WriteTo) == old(ncalls(bytes.Buffer.WriteTo)) + 1
 //@   ensures[C16] !option.Hidden && option.Description != "" ==> ncalls(wrapText) == old(ncalls(wrapText)) + 1 && callarg(wrapText, old(ncalls(wrapText)), 0) == helpDesc(option)
@@ -1354,7 +1364,7 @@ package flags
 //@ pure func hChain(p *Parser, n int) int = ite(n <= 0, 0, hChain(p, n-1) + hRows(p, activeAt(p.Command, n-1), iterlen(Group.eachGroup, activeAt(p.Command, n-1).Group)))
 
 //@ func (p *Parser) WriteHelp(writer io.Writer)
-//@   props C16 C04
+//@   props C16 C17 C04
 //@   requires p != nil && p.Command != nil
 //@   let root := p.Command
 //@   let w0 := ncalls(Parser.writeHelpOption)
@@ -1367,7 +1377,13 @@ package flags
 //@   loop 5 invariant c == activeAt(root, cnt_5) && use(chain_step, root, cnt_5) && use(chain_end, root, cnt_5) && cnt_5 <= chainLen(root) && cmd != nil
 //@   loop 5 invariant unfold(hChain(p, cnt_5 + 1)) && unfold(hChain(p, 0)) && ncalls(Parser.writeHelpOption) == w0 + hChain(p, cnt_5)
 //@   loop 5 invariant forall(k, w0, ncalls(Parser.writeHelpOption), showable(callarg(Parser.writeHelpOption, k, 2)))
+//@   loop 5 invariant[C17] (c == p.Command ==> !aligninfo.indent) && use(chain_noroot, root, cnt_5 + 1)
 //@   loop 5 decreases chainLen(root) - cnt_5
+//@   loop 6 invariant[C17] (c == p.Command ==> !printcmd && !aligninfo.indent) && (c != p.Command ==> printcmd || aligninfo.indent)
+//@   loop 7 invariant[C17] (c == p.Command ==> !printcmd && !aligninfo.indent) && (c != p.Command ==> printcmd || aligninfo.indent)
+//@   loop 8 invariant[C17] forall(a, 0, len(args), exists(i, 0, idx_8, args[a] == c.args[i]))
+//@   at[C17] call Parser.writeHelpOption #1: use(eag_elem, root, cnt_5, idx_6)
+//@   at[C17] call strings.Repeat #2: use(eag_elem, root, cnt_5, 0) && use(eg_nonempty, c.Group) && use(argWidth_def, arg) && use(rc_sub, strings.Repeat(" ", paddingBeforeOption), arg.Name) && use(rc_sub, strings.Repeat(" ", paddingBeforeOption) + arg.Name, ":")
 //@   loop 6 invariant unfold(hRows(p, c, idx_6 + 1)) && unfold(hRows(p, c, 0)) && ncalls(Parser.writeHelpOption) == w0 + hChain(p, cnt_5) + hRows(p, c, idx_6)
 //@   loop 6 invariant forall(k, w0, ncalls(Parser.writeHelpOption), showable(callarg(Parser.writeHelpOption, k, 2)))
 //@   loop 7 invariant unfold(nShow(grp.options, idx_7 + 1)) && unfold(nShow(grp.options, 0)) && !helpSkip(p, c, grp) && ncalls(Parser.writeHelpOption) == w0 + hChain(p, cnt_5) + hRows(p, c, idx_6) + nShow(grp.options, idx_7)
@@ -1377,9 +1393,41 @@ package flags
 //@   ensures[C16] writer != nil ==> ncalls(Parser.writeHelpOption) == w0 + hChain(p, chainLen(root))
 //@   ensures[C16] forall(k, w0, ncalls(Parser.writeHelpOption), showable(callarg(Parser.writeHelpOption, k, 2)))
 
+// The option column is sized for every option that the help text shows and
+// for every positional argument along the active chain (C17): what
+// writeHelpOption and the argument rows rely on.
+//@ pure func shownOpt(g *Group, i int) bool = !g.Hidden && showable(g.options[i])
+//@ pure func optNeed(p *Parser, c *Command, o *Option) int = optWidth(o) + ite(c != p.Command, 4, 0)
+//@ pure func argNeed(p *Parser, c *Command, i int) int = argWidth(c.args[i]) + ite(c != p.Command, 4, 0)
+// Trusted iterator facts: eachGroup visits the group itself first;
+// eachActiveGroup visits, for every command of the active chain, every group
+// that eachGroup visits for it (eagIndex names the position); the chain does
+// not come back to the root.
+//@ axiom manual eg_nonempty: forall g *Group :: g != nil ==> iterlen(Group.eachGroup, g) >= 1
+//@ assumed func eagIndex(root *Command, k int, j int) (r int)
+//@   pure
+//@ axiom manual eag_elem: forall root *Command, k int, j int :: 0 <= k && k < chainLen(root) && 0 <= j && j < iterlen(Group.eachGroup, activeAt(root, k).Group) ==> 0 <= eagIndex(root, k, j) && eagIndex(root, k, j) < iterlen(Command.eachActiveGroup, root) && iterelem(Command.eachActiveGroup, root, eagIndex(root, k, j), 0) == activeAt(root, k) && iterelem(Command.eachActiveGroup, root, eagIndex(root, k, j), 1) == iterelem(Group.eachGroup, activeAt(root, k).Group, j, 0)
+//@ axiom manual chain_noroot: forall root *Command, k int :: k > 0 && activeAt(root, k) != nil ==> activeAt(root, k) != root
+//@ pure func eagCmd(p *Parser, J int) *Command = iterelem(Command.eachActiveGroup, p.Command, J, 0)
+//@ pure func eagGrp(p *Parser, J int) *Group = iterelem(Command.eachActiveGroup, p.Command, J, 1)
 //@ func (p *Parser) getAlignmentInfo() (r alignmentInfo)
 //@   props C17 C04
 //@   requires p != nil && p.Command != nil
+//@   loop 1 invariant forall(J, 0, idx_1, forall(i, 0, len(eagGrp(p, J).options), shownOpt(eagGrp(p, J), i) ==> optNeed(p, eagCmd(p, J), eagGrp(p, J).options[i]) <= ret.maxLongLen))
+//@   loop 1 invariant forall(J, 0, idx_1, forall(i, 0, len(eagGrp(p, J).options), shownOpt(eagGrp(p, J), i) && eagGrp(p, J).options[i].ShortName != 0 ==> ret.hasShort))
+//@   loop 1 invariant forall(J, 0, idx_1, forall(i, 0, len(eagGrp(p, J).options), shownOpt(eagGrp(p, J), i) && len(eagGrp(p, J).options[i].ValueName) > 0 ==> ret.hasValueName))
+//@   loop 1 invariant forall(J, 0, idx_1, forall(i, 0, len(eagCmd(p, J).args), argNeed(p, eagCmd(p, J), i) <= ret.maxLongLen))
+//@   loop 1 invariant prevcmd != nil ==> forall(i, 0, len(prevcmd.args), argNeed(p, prevcmd, i) <= ret.maxLongLen)
+//@   loop 1 invariant !ret.indent && ret.terminalColumns > 0
+//@   loop 2 invariant loopentry(ret.maxLongLen) <= ret.maxLongLen && ret.hasShort == loopentry(ret.hasShort) && ret.hasValueName == loopentry(ret.hasValueName) && !ret.indent && ret.terminalColumns > 0
+//@   loop 2 invariant forall(i, 0, idx_2, argNeed(p, c, i) <= ret.maxLongLen)
+//@   loop 3 invariant loopentry(ret.maxLongLen) <= ret.maxLongLen && (loopentry(ret.hasShort) ==> ret.hasShort) && (loopentry(ret.hasValueName) ==> ret.hasValueName) && !ret.indent && ret.terminalColumns > 0
+//@   loop 3 invariant forall(i, 0, idx_3, showable(grp.options[i]) ==> optNeed(p, c, grp.options[i]) <= ret.maxLongLen && (grp.options[i].ShortName != 0 ==> ret.hasShort) && (len(grp.options[i].ValueName) > 0 ==> ret.hasValueName))
+//@   at call alignmentInfo.updateLen #1: use(argWidth_def, arg)
+//@   at call alignmentInfo.updateLen #2: use(optWidth_def, info)
+//@   ensures[C17] forall(J, 0, iterlen(Command.eachActiveGroup, p.Command), forall(i, 0, len(eagGrp(p, J).options), shownOpt(eagGrp(p, J), i) ==> alignOK(r.maxLongLen, r.hasShort, r.hasValueName, eagCmd(p, J) != p.Command, eagGrp(p, J).options[i])))
+//@   ensures[C17] forall(J, 0, iterlen(Command.eachActiveGroup, p.Command), forall(i, 0, len(eagCmd(p, J).args), argNeed(p, eagCmd(p, J), i) <= r.maxLongLen))
+//@   ensures[C17] r.terminalColumns > 0 && !r.indent
 //@ assumed func getTerminalColumns() (n int)
 
 //@ func (a *alignmentInfo) updateLen(name string, indent bool)
